@@ -105,7 +105,7 @@ pub fn create_object_constructor(interp: &mut Interpreter) -> JsObjectRef {
     interp
         .object_prototype
         .borrow_mut()
-        .set_property(constructor_key, JsValue::Object(constructor.clone()));
+        .define_builtin_property(constructor_key, JsValue::Object(constructor.clone()));
 
     constructor
 }
